@@ -21,6 +21,10 @@ def check_charge_map(ck, prog, rule="PART-charge-map"):
     ck.attempt(check_len_invariant, ck, prog)
     cmap, f, loop = facts.charge_map(prog)
     construct = f.mod.relpath + ":" + f.qual
+    for where, cond, val in facts.ANOMALIES:
+        ck.ob(rule, construct, False, expected="whenever the constructor derives the charge pattern it is the per-residue class map of the sequence",
+              found={"when": cond, "stored": val}, slot="derive-path[%s]" % cond[-50:], where=where,
+              note="a shortcut keyed on another constructor argument (a carried delta-max, say) must not decide the charges")
     for L in LETTERS:
         ck.ob(rule, construct, cmap.get(L) == REF_CHARGE[L], expected=REF_CHARGE[L], found=cmap.get(L),
               slot="charge[%s]" % L, where=f.loc(loop),
